@@ -587,6 +587,17 @@ func c17Suite(r *Result, rng *rand.Rand, tier string) {
 		r.Violate(Violation{Kind: "correspondence", Suite: "callbacks", Note: err.Error()})
 		return
 	}
+	// which repairs of callbacks.go the model follows (regenerated facts, extract/gen_c17.go): the model of the
+	// tree under check is Proc.runR treeRepairs; the flags are only reported here, the comparison is the same
+	guardInTree := false
+	if fl, err := AskLean([][]interface{}{{"cb.flags"}}); err == nil && len(fl) == 1 {
+		r.H("model-follows-tree", canonRaw(fl[0]))
+		var f struct {
+			DepthGuard bool `json:"depthGuard"`
+		}
+		_ = json.Unmarshal(fl[0], &f)
+		guardInTree = f.DepthGuard
+	}
 	// real code in crash-isolating children, sharded
 	nw := 12
 	type job struct{ lo, hi int }
@@ -624,7 +635,21 @@ func c17Suite(r *Result, rng *rand.Rand, tier string) {
 	for w := 0; w < nw; w++ {
 		<-done
 	}
-	for i, c := range cases {
+	// judged first: the probes (so that, when a listed entry has been marked fixed and the defect is back, the
+	// stored VIOLATION replays include the former witness itself), then every other case in generation order
+	judgeOrder := make([]int, 0, len(cases))
+	for i := range cases {
+		if _, probe := probeAt[i]; probe {
+			judgeOrder = append(judgeOrder, i)
+		}
+	}
+	for i := range cases {
+		if _, probe := probeAt[i]; !probe {
+			judgeOrder = append(judgeOrder, i)
+		}
+	}
+	for _, i := range judgeOrder {
+		c := cases[i]
 		obs := res[i]
 		if skip[i] {
 			r.H("outcome", "model-predicts-nontermination(not run)")
@@ -636,8 +661,26 @@ func c17Suite(r *Result, rng *rand.Rand, tier string) {
 		var m struct {
 			Errs []string `json:"errs"`
 			Fns  []int    `json:"fns"`
+			Gap  []int    `json:"gap"`
 		}
 		_ = json.Unmarshal(outs[i], &m)
+		for k, e := range m.Errs {
+			if e == "cycle" { // the depth guard's error (repair of F12): an ordinary returned error for the caller
+				m.Errs[k] = "conflict"
+				r.H("model-branch", "depth-guard-error")
+			}
+		}
+		// the depth guard against the unguarded recursion: calls on which the unguarded model terminates although
+		// it recurses deeper than the guard's bound 2n+2 (the only tables on which the guard changes a result;
+		// C17_guard_conservative / C17_guard_error_iff_beyond_bound) -- and those among them without an error
+		if len(m.Gap) == 2 && guardInTree {
+			if m.Gap[0] > 0 {
+				r.H("guard-vs-unguarded", "terminating-recursion-deeper-than-2n+2")
+				r.Note("unguarded sortCallback terminates deeper than 2n+2 on %s (%d calls, %d without error)", canon(c), m.Gap[0], m.Gap[1])
+			} else {
+				r.H("guard-vs-unguarded", "same-or-guard-stops-divergence")
+			}
+		}
 		key := canon(c)
 		nontriv := false
 		for _, o := range c.Ops {
@@ -685,9 +728,15 @@ func c17Suite(r *Result, rng *rand.Rand, tier string) {
 			if v != "" {
 				got = c17Classify(c, obs, v)
 			}
-			r.H("probe", fmt.Sprintf("%s reproduced=%v", want, got == want))
-			if got != want {
-				r.Note("probe of listed finding %s: witness now yields %q (%s)", want, got, v)
+			if listed(want) {
+				r.H("probe", fmt.Sprintf("%s reproduced=%v", want, got == want))
+				if got != want {
+					r.Note("probe of listed finding %s: witness now yields %q (%s)", want, got, v)
+				}
+			} else {
+				// entry marked fixed: the former witness is an ordinary input and must satisfy the property
+				// (a failure is reported as a VIOLATION by the oracle call below: nothing is suppressed)
+				r.H("probe", fmt.Sprintf("%s fixed: former witness judged, passes=%v", want, v == ""))
 			}
 		}
 		if v := c17Oracle(c, obs); v != "" {
